@@ -9,7 +9,8 @@ verus! {
 pub uninterp spec fn w_of(k: int) -> int;
 pub uninterp spec fn p_of(k: int) -> int;
 pub uninterp spec fn p1_of(k: int) -> int;
-pub open spec fn enc_consts_ok(k: int) -> bool { 17 <= w_of(k) && 1 <= p_of(k) <= p1_of(k) && p1_of(k) < 65536 && w_of(k) + p1_of(k) < 65536 }
+// every conjunct is one of the per-row facts K-TAB establishes for all 477 rows (W >= 17, L = W + P < 65536, P >= 1, P <= P1 <= P + 13)
+pub open spec fn enc_consts_ok(k: int) -> bool { 17 <= w_of(k) && 1 <= p_of(k) <= p1_of(k) && p1_of(k) <= p_of(k) + 13 && w_of(k) + p_of(k) < 65536 }
 // the walk b, b + a, b + 2a, ... modulo m of RFC 6330 5.3.5.3
 pub open spec fn orbit(b: int, a: int, m: int, j: int) -> int { (b + j * a) % m }
 pub proof fn lemma_orbit_step(b: int, a: int, m: int, j: int)
@@ -85,11 +86,11 @@ impl SymbolSlab {
     K = 'source_block_symbols as int'
     VIEW = 'view(*intermediate_symbols)'
     COMMON = ('source_block_symbols <= 56403, slab_wf(*intermediate_symbols), enc_consts_ok(%s), w as int == w_of(%s), p as int == p_of(%s), p1 as int == p1_of(%s),'
-              ' intermediate_symbols.count as int >= w as int + p1 as int, dest@.len() == intermediate_symbols.symbol_size,'
+              ' intermediate_symbols.count as int >= w as int + p as int, dest@.len() == intermediate_symbols.symbol_size,'
               ' 1 <= a && a < w, 1 <= a1 && a1 < p1, 1 <= d <= 30, d1 == 2 || d1 == 3, b0 < w as int, b10 < p1 as int, 0 <= b0, 0 <= b10,' % (K, K, K, K))
     u.fn('src/encoder.rs', 'enc_into', ret='r', rules=['A1'],
          attrs='#[verifier::exec_allows_no_decreases_clause]', isolate_loops=True,
-         requires=['source_block_symbols <= 56403', 'slab_wf(*intermediate_symbols)', 'intermediate_symbols.count as int >= w_of(%s) + p1_of(%s)' % (K, K),
+         requires=['source_block_symbols <= 56403', 'slab_wf(*intermediate_symbols)', 'intermediate_symbols.count as int >= w_of(%s) + p_of(%s)' % (K, K),
                    'old(dest)@.len() == intermediate_symbols.symbol_size',
                    '1 <= source_tuple.0 <= 30', '1 <= source_tuple.1 && (source_tuple.1 as int) < w_of(%s)' % K, '(source_tuple.2 as int) < w_of(%s)' % K,
                    'source_tuple.3 == 2 || source_tuple.3 == 3', '1 <= source_tuple.4 && (source_tuple.4 as int) < p1_of(%s)' % K, '(source_tuple.5 as int) < p1_of(%s)' % K],
